@@ -6,8 +6,9 @@ ids = [json.loads(l)['id'] for l in open(os.path.join(HERE, 'properties.jsonl'))
 
 TECH = ('bounded symbolic execution of the real eqsig code on NumPy object arrays of z3-backed scalars '
         '(decision-replay path enumeration) + one z3 query (path condition and negated claim) per obligation; '
-        'sat models are replayed on the unpatched library before a VIOLATION is printed')
-NOTE = ('Trusted base: z3; the symnp engine (vf/engine); contract models of compiled NumPy/SciPy routines listed in the '
+        'sat models are replayed on the unpatched library before a VIOLATION is printed; a sample of the claim '
+        'queries of every obligation is re-decided by cvc5 from the SMT-LIB dump of the z3 state (disagreement = harness error)')
+NOTE = ('Trusted base: z3 (cvc5 as cross-check on sampled queries); the symnp engine (vf/engine); contract models of compiled NumPy/SciPy routines listed in the '
         'evidence file (differentially validated on every run). Symbolic values are mathematical reals, concrete '
         'coefficients are the doubles the library computes; round-off on the symbolic record, inputs outside the '
         'stated bounds and NaN/inf are outside the claim.')
